@@ -18,13 +18,14 @@ static std::vector<std::unique_ptr<Parameter>> ps;
 // offences recorded by the guarded parameter monitor (see props/hooks.d/C01-param-monitor.json)
 static std::string monitorOffence;
 
-#ifdef VERIF_HAVE_PARAM_MONITOR
+// Definition of the weak hook called by Parameter.cpp (guard BIOPP_BPP_CORE_VERIF) after every
+// member that writes value or constraint: the same predicate as the driver's `param_inv`, evaluated
+// inside the library on every Parameter object it touches.
 extern "C" void bpp_verif_param_audit(const bpp::Parameter* p, const char* site)
 {
   if (p->hasConstraint() && !p->getConstraint()->isCorrect(p->getValue()))
     if (monitorOffence.empty()) monitorOffence = site;
 }
-#endif
 
 static std::string b(bool x) { return x ? "1" : "0"; }
 static double D(const std::string& s) { return hexToDouble(s); }
